@@ -18,6 +18,8 @@ CONSTANTS CheckPairs      \* TRUE: also evaluate the (expensive) all-pairs prope
 
 \* ---------------------------------------------------------------- universe
 NameOrderDef == <<"authorization", "x-a", "x-b", "x-z">>
+AcrhOKElems(s, r) == ApprovedElems(Sorted(s.hNames), r.acrh.lines)     \* element-level approval (byte level: Acrh.tla)
+AcrhEchoElems(r) == EchoLines(r)
 oA == [txt |-> "https://a", wf |-> TRUE,  parse |-> TRUE,  member |-> TRUE]
 oB == [txt |-> "https://b", wf |-> TRUE,  parse |-> TRUE,  member |-> FALSE]
 oX == [txt |-> "junk",      wf |-> FALSE, parse |-> FALSE, member |-> FALSE]
